@@ -217,9 +217,12 @@ func (f *Filter) ResetRequestVerifications() {
 	}
 }
 
-// ResetResponseVerifications resets the state of the contained request verifiers.
+// ResetResponseVerifications resets the state of the contained response verifiers.
 func (f *Filter) ResetResponseVerifications() {
 	if tresv, ok := f.tresmod.(verify.ResponseVerifier); ok {
 		tresv.ResetResponseVerifications()
+	}
+	if fresv, ok := f.fresmod.(verify.ResponseVerifier); ok {
+		fresv.ResetResponseVerifications()
 	}
 }
